@@ -313,12 +313,29 @@ func cmdCheck(args []string) int {
 			fmt.Printf("  also: %s (%d runs) :: %s\n", o.Sig, o.Count, o.Detail)
 		}
 		ropt := opt
-		min, tries := sim.Minimise(world, v.Case, v.Property, v.Sig, ropt, 60*time.Second)
-		rr := world.Replay(min, ropt)
+		// a failing case must reproduce on its own (single-threaded replay);
+		// a case that only failed because of interference between parallel
+		// runs (possible when the code under test has grown process-global
+		// state) is skipped in favour of the next recorded one
+		cands := append([]*sim.Case{v.Case}, v.More...)
+		var min *sim.Case
+		var tries int
 		var got *sim.Violation
-		for i := range rr.Violations {
-			if rr.Violations[i].Property == v.Property && rr.Violations[i].Sig == v.Sig {
-				got = &rr.Violations[i]
+		for _, cand := range cands {
+			if cand == nil {
+				continue
+			}
+			m, t := sim.Minimise(world, cand, v.Property, v.Sig, ropt, 60*time.Second)
+			rr := world.Replay(m, ropt)
+			for i := range rr.Violations {
+				if rr.Violations[i].Property == v.Property && rr.Violations[i].Sig == v.Sig {
+					got = &rr.Violations[i]
+				}
+			}
+			min, tries = m, t
+			if got != nil {
+				v.Case = cand
+				break
 			}
 		}
 		if got == nil {
